@@ -143,8 +143,8 @@ def tie_H(res, client, runs, hang_is_violation=True, label=None, exe=None, ignor
                 bad = history_oracle(block)
                 if bad:
                     res.violation("%s:%s:history-oracle:%s" % (label, var, bad.split(":")[0]), dict(replay, kind="oracle", oracle=[bad]))
-            if not judged:
-                pass        # oracle-only client (no abstract data type): X lines and hangs decide
+            if not judged or re.match(r"CASE \S+ none\b", block):
+                pass        # oracle-only client or variant (no abstract data type claimed): X lines and hangs decide
             elif verdict == "NOTLIN":
                 res.violation("%s:%s:not-linearizable" % (label, var), replay)
             elif verdict != "LIN":
